@@ -14,7 +14,7 @@
    unique   StoreInfo.IsUnique;  gran: keys a, b compare equal iff a \div gran = b \div gran
             (gran = 1: plain int keys, default comparer; gran = 10: custom comparer, used for key updates)
 
-   Every public call is one action; its last parameter is the value the call returned
+   Every public call is one action; its result parameter r is the value the call returned
    ("true" / "false" / "error" = (false, err) / "panic"), which the action constrains.
    Where the result depends on the tree shape, which this model does not have, the action is
    nondeterministic and says so:
@@ -24,8 +24,11 @@
                                           else the predecessor),
      * what the cursor designates after a successful Add when it was set
        (same node id and slot index as before; the slots moved underneath it).
+   Such choices can be narrowed by observation parameters (c, a; -2 = not observed, see Pick).
    Deviations of the code from the intended behaviour are separate disjuncts guarded by CONSTANTS
-   (finding actions): AllowD1, AllowD2.                                                              *)
+   (finding actions): AllowD1 (operator D1), AllowD2 (operator KeyGuard).  With both FALSE the
+   specification is the intended behaviour; /repo's defects D3, D4 (load balancing breaks the key order)
+   have no finding action: no ordered collection describes the state they leave behind.             *)
 EXTENDS Integers, Sequences, FiniteSets, TLC
 
 CONSTANTS AllowD1,   \* Find(k,false) short cut trusts a cursor whose slot was vacated: a zero key "is found"
